@@ -263,7 +263,8 @@ class Contract:
             return re.sub(r'\bself\b', to, e)
         self.init_own = '(%s { %s })' % (O0 + ('::<%s>' % xg if xg else ''), ', '.join('%s: %s' % (f, init[f].strip()) for f, _, _ in own))
         newc = ['requires view.inv()']
-        newc += ['ensures[init|C08] r.view.abs() == view.abs() && r.abs().1 == (%s { %s })' % (O0 + ('::<%s>' % xg if xg else ''), ', '.join('%s: %s' % (f, init[f].strip()) for f, _, _ in own))]
+        # the initial abstract state is part of the functional statement (coefficients, zero/first-value initial state)
+        newc += ['ensures[init|%s] r.view.abs() == view.abs() && r.abs().1 == (%s { %s })' % (opts.get('E3', ''), O0 + ('::<%s>' % xg if xg else ''), ', '.join('%s: %s' % (f, init[f].strip()) for f, _, _ in own))]
         newc += ['ensures[inv:%s|%s] %s' % (l, t, sub_self(e, 'r')) for l, t, e in conj]
         newc += ['ensures[inv:view|C15] r.view.inv()']
         self.sec['fn ' + initf] = newc + self.sec.get('fn ' + initf, [])
@@ -772,8 +773,10 @@ def process_file(em, path, report):
         em.add('impl %s<Echo> {' % dname)
         em.add('    pub fn default() -> (r: Self)')
         em.add('        ensures')
-        txt = 'r.inv() && r.abs() == (None::<T>, %s)' % vc.init_own
-        em.add('            %s,' % txt, dict(module=stem, fn='default', kind='ensures', label='default', tags=['C13', 'C15'], text=txt))
+        txt = 'r.inv()'
+        em.add('            %s,' % txt, dict(module=stem, fn='default', kind='ensures', label='default:inv', tags=['C15'], text=txt))
+        txt = 'r.abs() == (None::<T>, %s)' % vc.init_own
+        em.add('            %s,' % txt, dict(module=stem, fn='default', kind='ensures', label='default', tags=['C13'], text=txt))
         em.add('    {')
         em.add(dbody.strip('\n'))
         em.add('    }')
